@@ -18,7 +18,8 @@ from ..report import AnalysisError
 
 REL = "inference/approx/conditional.py"
 FLOORS = {"inverse-cdf": 1, "taylor-branch": 2, "branch-dispatch": 1, "delta-form": 2, "cell-weight": 1,
-          "sample-form": 2, "normalised": 1, "grid-in-bounds": 1}
+          "sample-form": 2, "normalised": 1, "grid-in-bounds": 1,
+          "conditioning-point": 2}
 
 
 def run(prog, tier):
@@ -134,6 +135,28 @@ def run(prog, tier):
     obs.append(struct_ob("grid-in-bounds", fqual(mi, gc), ok,
                          "the search grid of variable i must be linspace over bounds[i] plus the conditioning coordinate, "
                          "inserted in order, for the conditional of that same variable", REL, gc.lineno))
+
+    # ---------------------------------------------------------------- the conditioning point is never disturbed
+    from ..own import Ownership, class_mutation_sinks
+    cc = prog.cls("Conditional")
+    own = Ownership(prog)
+    hits = [(c_, f, line, text) for root, c_, f, line, text in
+            class_mutation_sinks(own, prog, cc, {"theta": {("store", "theta")}})
+            if root == ("store", "theta")]
+    obs.append(struct_ob("conditioning-point", f"{mi.name}.Conditional[theta-preserved]", not hits,
+                         "the stored conditioning point is written in place"
+                         + (f" at line {hits[0][2]} in {hits[0][1].name}: `{hits[0][3]}`" if hits else "")
+                         + "; one Conditional object is re-used for every variable, so a coordinate left displaced by one "
+                           "scan moves the point through which the next conditional is taken", REL,
+                         hits[0][2] if hits else cc.node.lineno))
+    cfn = cc.methods.get("__call__")
+    body = [ast.unparse(s_) for s_ in cfn.body]
+    xarg = cfn.args.args[1].arg
+    ok = (len(body) == 3 and body[0].endswith("= self.theta.copy()") and body[1] == f"{body[0].split(' =')[0]}[self.variable_index] = {xarg}"
+          and body[2] == f"return self.posterior({body[0].split(' =')[0]})")
+    obs.append(struct_ob("conditioning-point", f"{mi.name}.Conditional.__call__", ok,
+                         f"the conditional must evaluate the posterior at a copy of the conditioning point with only coordinate "
+                         f"variable_index replaced; body is {body}", REL, cfn.lineno))
 
     meta = {
         "explanation": "Normal-form proofs: substituting trapezium_full into dh*T^2+(1-dh)*T-x gives 0 (uses sqrt(P)^2 = P); the "
